@@ -2,10 +2,10 @@ package rules
 
 import (
 	"fmt"
-	"regexp"
 	"go/ast"
 	"go/constant"
 	"go/types"
+	"regexp"
 	"strings"
 	"text/template/parse"
 
@@ -430,7 +430,6 @@ func checkProfileTemplate(e *Env, p *load.Program) {
 		r.Check(good, "E4.profile", "writeGoTemplate/SyscallNames", p.Pos(fn.Pos()), "the template parameter SyscallNames is the list parameter", "writeGoTemplate does not pass its list parameter as SyscallNames")
 	}
 }
-
 
 var fmtVerb = regexp.MustCompile(`%[-+# 0-9.*]*[a-zA-Z]`)
 
